@@ -111,6 +111,7 @@ type c03Case struct {
 	Args   int     `json:"args"`    // argument map carried by the invocation
 	Hook   int     `json:"hook"`    // -1: no hook; otherwise the argument map the hook returns
 	NoMono bool    `json:"no_mono"` // skip the successor (monotonicity) exploration
+	Layout int     `json:"layout"`  // principal layout of the chain (layoutHolder): 1, 2 = the subject also issues a link below the root
 	MonoOf *[2]int `json:"mono_of"` // replay only: successor = add statement [1] to link [0] (link == len -> new root link)
 }
 
@@ -136,16 +137,23 @@ func c03Describe(pols [][]int, a int) string {
 
 // c03Verdict executes one (chain policies, args, hook) configuration on the real code.
 func c03Verdict(pols [][]int, argIdx, hook int) (error, bool) {
+	return c03VerdictL(0, pols, argIdx, hook)
+}
+
+func c03VerdictL(layout int, pols [][]int, argIdx, hook int) (error, bool) {
 	n := len(pols)
+	if layout >= layoutCount(n) {
+		layout = 0
+	}
 	ld := &sliceLoader{}
 	prf := make([]cid.Cid, n)
 	for i := 0; i < n; i++ {
-		d := mustDlg(alignedHolder(n, i+1), alignedHolder(n, i), 0, "/a", c03Policy(pols[i]))
+		d := mustDlg(layoutHolder(layout, n, i+1), layoutHolder(layout, n, i), 0, "/a", c03Policy(pols[i]))
 		ld.cids = append(ld.cids, cidPool[i])
 		ld.toks = append(ld.toks, d)
 		prf[i] = cidPool[i]
 	}
-	inv, err := invocation.New(prin(alignedHolder(n, 0)), prin(0), "/a", prf,
+	inv, err := invocation.New(prin(layoutHolder(layout, n, 0)), prin(0), "/a", prf,
 		invocation.WithNonce(fixedNonce), invocation.WithoutInvokedAt(), invocation.WithArguments(c03Args(argIdx)))
 	if err != nil {
 		panic(err)
@@ -181,7 +189,7 @@ func c03Run(dir string) func(ctx *engine.Ctx, c any) {
 			eff = cs.Hook
 		}
 		ctx.States(1)
-		e, saw := c03Verdict(cs.Pols, cs.Args, cs.Hook)
+		e, saw := c03VerdictL(cs.Layout, cs.Pols, cs.Args, cs.Hook)
 		ctx.Eval(1)
 		ctx.Outcome(errLabel(e))
 		want, li, sj := c03Ref(cs.Pols, eff)
@@ -233,12 +241,12 @@ func c03Run(dir string) func(ctx *engine.Ctx, c any) {
 			} else {
 				np[link] = append(np[link], stmt)
 			}
-			e2, _ := c03Verdict(np, cs.Args, -1)
+			e2, _ := c03VerdictL(cs.Layout, np, cs.Args, -1)
 			ctx.Eval(1)
 			ctx.Trans(1)
 			if e2 == nil {
 				mo := [2]int{link, stmt}
-				ctx.Failf(&c03Case{Pols: cs.Pols, Args: cs.Args, Hook: -1, MonoOf: &mo}, "not-monotone",
+				ctx.Failf(&c03Case{Pols: cs.Pols, Args: cs.Args, Hook: -1, MonoOf: &mo, Layout: cs.Layout}, "not-monotone",
 					"denied state %s becomes allowed after adding statement %d to link %d", c03Describe(cs.Pols, cs.Args), stmt, link)
 			}
 		}
@@ -265,7 +273,7 @@ func c03Run(dir string) func(ctx *engine.Ctx, c any) {
 func c03Sub(name, dir string) *engine.Sub {
 	return &engine.Sub{
 		Name: name,
-		Rule: "every distribution of policies (sequences of <=2 statements out of 8 kinds) over the links of an aligned chain x 8 argument maps; verdict compared with the conjunction of the real single-statement Match results; successors (one more statement / one more link) of denied states must stay denied; non-trivial = chain carries at least one statement",
+		Rule: "every distribution of policies (sequences of <=2 statements out of 8 kinds) over the links of an aligned chain (every principal layout: straight; the subject re-delegating to itself on top; authority passing through the subject in mid-chain) x 8 argument maps; verdict compared with the conjunction of the real single-statement Match results; successors (one more statement / one more link) of denied states must stay denied; non-trivial = chain carries at least one statement",
 		Bound: func(t string) string {
 			if t == "thorough" {
 				return "chains of 1..3 links with full 73-policy alphabet per link, 8 argument maps; successors for chains <=2 links"
@@ -285,8 +293,10 @@ func c03Sub(name, dir string) *engine.Sub {
 			for a := 0; a < 8; a++ {
 				for p0 := 0; p0 < np; p0++ {
 					for p1 := 0; p1 < np; p1++ {
-						if !emit(&c03Case{Pols: [][]int{c03.policies[p0], c03.policies[p1]}, Args: a, Hook: -1}) {
-							return
+						for lay := 0; lay < layoutCount(2); lay++ {
+							if !emit(&c03Case{Pols: [][]int{c03.policies[p0], c03.policies[p1]}, Args: a, Hook: -1, Layout: lay, NoMono: lay > 0}) {
+								return
+							}
 						}
 					}
 				}
@@ -299,8 +309,13 @@ func c03Sub(name, dir string) *engine.Sub {
 				for p0 := 0; p0 < lim; p0++ {
 					for p1 := 0; p1 < lim; p1++ {
 						for p2 := 0; p2 < lim; p2++ {
-							if !emit(&c03Case{Pols: [][]int{c03.policies[p0], c03.policies[p1], c03.policies[p2]}, Args: a, Hook: -1, NoMono: tier == "thorough"}) {
-								return
+							for lay := 0; lay < layoutCount(3); lay++ {
+								if lay > 0 && tier == "thorough" && (p0 > 8 || p1 > 8 || p2 > 8) {
+									continue
+								}
+								if !emit(&c03Case{Pols: [][]int{c03.policies[p0], c03.policies[p1], c03.policies[p2]}, Args: a, Hook: -1, NoMono: tier == "thorough" || lay > 0, Layout: lay}) {
+									return
+								}
 							}
 						}
 					}
@@ -370,9 +385,9 @@ func (c *c03SeqCase) Weight() int { return len(c.Seq) + len(c.Pols) }
 func c03SeqSub(name, dir string) *engine.Sub {
 	return &engine.Sub{
 		Name: name,
-		Rule: "sequences of two (quick) or three (thorough) authorization checks on the SAME invocation token, each check being ExecutionAllowed or ExecutionAllowedWithArgsHook with one of 8 hook-returned argument maps: every check's verdict must be the one the reference gives for the arguments effective in that call (no memo of arguments or verdicts across calls); non-trivial = sequences whose effective arguments differ between calls",
+		Rule: "sequences of two (quick) or three (thorough) authorization checks on the SAME invocation token, each check being ExecutionAllowed, ExecutionAllowedWithArgsHook with one of 8 hook-returned argument maps, or ExecutionAllowed with a loader that cannot load one of the proofs (refused; the delegation then 'arrives' for the next check): every check's verdict must be the one the reference gives for the arguments effective in that call (no memo of arguments or verdicts across calls); non-trivial = sequences whose effective arguments differ between calls",
 		Bound: func(t string) string {
-			return fmt.Sprintf("1 link with 73 policies (+2 links with <=1 statement each), 8 token argument maps, all sequences of %d checks out of 9", tierN(t, 2, 3))
+			return fmt.Sprintf("1 link with 73 policies (+2 links with <=1 statement each), 8 token argument maps, all sequences of %d checks out of 9 + number of links", tierN(t, 2, 3))
 		},
 		Setup: func(string) error { c03Init(); return nil },
 		Gen: func(tier string, emit func(any) bool) {
@@ -392,6 +407,9 @@ func c03SeqSub(name, dir string) *engine.Sub {
 					for i := range seq {
 						seq[i] = -1
 					}
+					// step alphabet: -1 = ExecutionAllowed; 0..7 = hook returning that argument map;
+					// 8+k = ExecutionAllowed with a loader that cannot load proof k (the delegation "arrives later")
+					top := 8 + len(ps)
 					for {
 						if !emit(&c03SeqCase{Pols: ps, Args: a, Seq: append([]int{}, seq...)}) {
 							return
@@ -399,7 +417,7 @@ func c03SeqSub(name, dir string) *engine.Sub {
 						i := n - 1
 						for i >= 0 {
 							seq[i]++
-							if seq[i] < 8 {
+							if seq[i] < top {
 								break
 							}
 							seq[i] = -1
@@ -433,6 +451,27 @@ func c03SeqSub(name, dir string) *engine.Sub {
 			for k, step := range cs.Seq {
 				eff := cs.Args
 				var e error
+				if step >= 8 {
+					// a loader that lacks proof (step-8): the check must be refused, whatever happened before,
+					// and must not leave anything behind that a later check with a complete loader would use
+					miss := step - 8
+					part := &sliceLoader{}
+					for i := range ld.cids {
+						if i != miss {
+							part.cids = append(part.cids, ld.cids[i])
+							part.toks = append(part.toks, ld.toks[i])
+						}
+					}
+					e = inv.ExecutionAllowed(part)
+					ctx.Eval(1)
+					ctx.Trans(1)
+					ctx.Outcome(errLabel(e))
+					if dir == "sound" && e == nil {
+						ctx.Failf(cs, "allowed-without-delegation", "check #%d of sequence %v on one token is allowed although the loader cannot load proof %d", k, cs.Seq, miss)
+					}
+					distinct[-2-miss] = true
+					continue
+				}
 				if step < 0 {
 					e = inv.ExecutionAllowed(ld)
 				} else {
